@@ -29,6 +29,7 @@ RULE = (
 )
 ASSUMPTIONS = [
     'constant-cell trajectories only',
+    'split without equal_parts is taken to tile the source without gaps; at most one trailing frame may stay unused (the implementation drops the last frame)',
     'the probe uses copy.deepcopy of the object and reads .positions of the copy (pickle/deepcopy are trusted)',
     'analysis queries may legitimately raise on degenerate data (e.g. no transition events); only their effect on the data is judged',
 ]
@@ -111,7 +112,7 @@ def rand_slice(rng, T):
 
 def run_unit(unit, rng, ctx):
     kind, rot, m = geom.random_lattice(rng, lo=4.0, hi=9.0)
-    T = int(rng.integers(4, 30))
+    T = int(rng.integers(4, 30)) if unit['i'] % 5 else int(rng.choice([16, 31, 50, 61, 62]))
     symbols = [str(x) for x in rng.choice(['Li', 'S', 'Si', 'P', 'Na'], size=int(rng.integers(2, 5)), replace=False)]
     names = [str(x) for x in rng.choice(symbols, size=int(rng.integers(2, 8)))]
     N = len(names)
@@ -226,7 +227,7 @@ def run_unit(unit, rng, ctx):
             elif op == 'split':
                 if Tn < 3:
                     continue
-                n = int(rng.integers(1, min(5, Tn - 1) + 1))
+                n = int(rng.integers(1, min(5 if rng.integers(2) else 24, Tn - 1) + 1))
                 eq = bool(rng.integers(2))
                 parts = o.split(n, equal_parts=eq)
                 desc = f'split({n}, equal_parts={eq})'
@@ -249,6 +250,9 @@ def run_unit(unit, rng, ctx):
                     pos_end = found + L
                 if eq and len(set(lens)) > 1:
                     good = False
+                if good and not eq:
+                    # without trimming the parts tile the source: no gaps, at most one trailing frame unused
+                    ctx.check(sum(lens) >= Tn - 1 and pos_end >= Tn - 1, f'after {hist + [desc]}: split parts of "{live.origin}" cover only {sum(lens)} of {Tn} frames (lengths {lens})', {'history': hist + [desc]})
                 ctx.check(bool(good), f'after {hist + [desc]}: split parts are not ordered, non-overlapping frame ranges of "{live.origin}" (lengths {lens}, source {Tn})', {'history': hist + [desc]})
                 deriv_in_disp_mode += disp_mode
             elif op == 'extend':
